@@ -397,8 +397,11 @@ end
 /-! ### the Barnes–Hut gradient `computeGradient` (flat buffers, `QT_NO_DIMS = 2`) against the exact gradient
 
 `mapOf N Y` is the flat map buffer `Y[n*2+d]` read as a matrix, `csrMat N c` the CSR similarities read as a dense matrix
-(`Proofs/TsneBhExact.lean`), `DistinctMap N Y` says that no two of the `N` map points coincide.  The model's only other
-outcome is the explicit "out of quadtree fuel" state; `bh_theta0_eq_exact_total` removes it. -/
+(`Proofs/TsneBhExact.lean`).  The model's only other outcome is the explicit "out of quadtree fuel" state;
+`bh_theta0_eq_exact_total` removes it.  Coincident map points are allowed everywhere: the tree's per-point `sum_Q` is
+then NOT the exact one (C18 `forces_theta0_coincident`: a resident skips the twins it absorbed, a twin counts itself),
+but the force components are, and the deviations of `sum_Q` cancel in the running total `computeGradient` divides by
+(`QuadTree.corr_total`). -/
 section
 variable {K : Type} [Field K] [LinearOrder K] [IsStrictOrderedRing K]
 
@@ -414,14 +417,13 @@ theorem bhGradient_inbounds (fuel N : Nat) (eps θ : K) (c : Csr K) (hw : c.well
   | none => exact Or.inl rfl
   | some tree => exact Or.inr ⟨_, rfl, bhResult_size N θ c (wfc_of_wellFormed N c hw) Y tree⟩
 
-/-- **`bh_theta0_eq_exact`** — for every `N`, every well-formed CSR similarity matrix `P` and every map without
-    coincident points, `computeGradient` at `θ = 0` returns, cell by cell, the exact gradient formula over the true
+/-- **`bh_theta0_eq_exact`** — for every `N`, every well-formed CSR similarity matrix `P` and EVERY map (coincident
+    points included), `computeGradient` at `θ = 0` returns, cell by cell, the exact gradient formula over the true
     squared distances with the same `P`:  `dC[n*2+d] = Σ_{m≠n} (y_n − y_m)_d (p_nm − q_nm/ΣQ) q_nm`.
-    (With `θ = 0` the summary criterion holds on no internal cell, the tree stores every point once —
-    `QuadTree.forces_theta0_exact`, here for the running `sum_Q` accumulator — and
-    `pos_f − neg_f/ΣQ` is the exact summand, `gradient_identity`.) -/
+    (With `θ = 0` the summary criterion holds on no internal cell; every leaf contributes the terms of all points it
+    holds, `QuadTree.forces_zero_general`; `pos_f − neg_f/ΣQ` is the exact summand, `gradient_identity`.) -/
 theorem bh_theta0_eq_exact (fuel N : Nat) (eps : K) (heps : 0 ≤ eps) (c : Csr K) (hw : c.wellFormed N = true)
-    (Y : Array K) (hY : Y.size = N * 2) (hd : DistinctMap N Y) :
+    (Y : Array K) (hY : Y.size = N * 2) :
     bhGradient fuel eps 0 N 2 c Y = .error (.oob "quadtree: out of fuel") ∨
     ∃ g, bhGradient fuel eps 0 N 2 c Y = .ok g ∧ g.size = N * 2 ∧
       ∀ (n : Fin N) (d : Fin 2), g.getD (n.1 * 2 + d.1) 0 = exactGradientSpec (csrMat N c) (mapOf N Y) n d := by
@@ -430,7 +432,7 @@ theorem bh_theta0_eq_exact (fuel N : Nat) (eps : K) (heps : 0 ≤ eps) (c : Csr 
   | none => exact Or.inl rfl
   | some tree =>
     exact Or.inr ⟨_, rfl, bhResult_size N 0 c (wfc_of_wellFormed N c hw) Y tree,
-      bhResult_zero_getD fuel N eps heps c (wfc_of_wellFormed N c hw) Y hd tree hb⟩
+      bhResult_zero_getD_all fuel N eps heps c (wfc_of_wellFormed N c hw) Y tree hb⟩
 
 /-- **θ → 0** — for every map (coincident points allowed) there is a threshold `θ₀ > 0` below which `computeGradient`
     returns exactly what it returns at `θ = 0` (the padding `eps` of the root cell is positive: `1e-5` in the code) -/
@@ -447,11 +449,11 @@ theorem bh_small_theta_eq_theta0 (fuel N : Nat) (eps : K) (heps : 0 < eps) (c : 
       rw [bhGradient_eq fuel N eps θ c hw Y hY, bhGradient_eq fuel N eps 0 c hw Y hY, hb]
       simp only [h θ hθ]⟩
 
-/-- **the chain without the fuel case** (ℚ, ℝ, any Archimedean ordered field): for every map without coincident points
-    there are a fuel bound and a threshold `θ₀ > 0` such that for every larger fuel and every `θ < θ₀` the Barnes–Hut
-    gradient IS the exact gradient -/
+/-- **the chain without the fuel case** (ℚ, ℝ, any Archimedean ordered field): for every map there are a fuel bound and
+    a threshold `θ₀ > 0` such that for every larger fuel and every `θ < θ₀` the Barnes–Hut gradient IS the exact
+    gradient -/
 theorem bh_theta0_eq_exact_total [Archimedean K] (N : Nat) (eps : K) (heps : 0 < eps) (c : Csr K)
-    (hw : c.wellFormed N = true) (Y : Array K) (hY : Y.size = N * 2) (hd : DistinctMap N Y) :
+    (hw : c.wellFormed N = true) (Y : Array K) (hY : Y.size = N * 2) :
     ∃ fuel0, ∀ fuel, fuel0 ≤ fuel → ∃ θ₀ : K, 0 < θ₀ ∧ ∀ θ, θ < θ₀ →
       ∃ g, bhGradient fuel eps θ N 2 c Y = .ok g ∧ g.size = N * 2 ∧
         ∀ (n : Fin N) (d : Fin 2), g.getD (n.1 * 2 + d.1) 0 = exactGradientSpec (csrMat N c) (mapOf N Y) n d := by
@@ -461,38 +463,26 @@ theorem bh_theta0_eq_exact_total [Archimedean K] (N : Nat) (eps : K) (heps : 0 <
   obtain ⟨θ₀, hpos, h⟩ := bh_small_theta_eq_theta0 fuel N eps heps c hw Y hY
   refine ⟨θ₀, hpos, fun θ hθ => ?_⟩
   rw [h θ hθ]
-  rcases bh_theta0_eq_exact fuel N eps (le_of_lt heps) c hw Y hY hd with he | hg
+  rcases bh_theta0_eq_exact fuel N eps (le_of_lt heps) c hw Y hY with he | hg
   · rw [bhGradient_eq fuel N eps 0 c hw Y hY, hb] at he
     exact absurd he (by simp)
   · exact hg
 end
 
-/-! non-vacuity: three map points (0,0), (1,0), (0,1), the 3 × 3 similarity pattern used above, `eps = 1e-5`: the
-    hypotheses hold and the model returns a gradient (fuel 8 is enough) -/
+/-! non-vacuity: three map points (0,0), (1,0), (0,1), and the map (0,0), (0,0), (1,0) with a coincident pair; the
+    3 × 3 similarity pattern used above, `eps = 1e-5`: the hypotheses hold and the model returns a gradient (fuel 8 is
+    enough) -/
 def mapW : Array Rat := #[0, 0, 1, 0, 0, 1]
+def mapTwin : Array Rat := #[0, 0, 0, 0, 1, 0]
 
 example : (patternCsr 3 0b100100010).wellFormed 3 = true := by decide +kernel
-example : mapW.size = 3 * 2 := by decide
-example : DistinctMap 3 mapW := by
-  intro n m hnm h
-  have h0 := congrFun h 0
-  have h1 := congrFun h 1
-  revert hnm h0 h1
-  fin_cases n <;> fin_cases m <;> decide +kernel
+example : mapW.size = 3 * 2 ∧ mapTwin.size = 3 * 2 := by decide
+example : (0 : Rat) < 1 / 100000 := by decide +kernel
 example : (match bhGradient 8 (1 / 100000 : Rat) 0 3 2 (patternCsr 3 0b100100010) mapW with
     | .ok g => g.size == 6
     | .error _ => false) = true := by decide +kernel
-
-/-- Remark (a test, not a theorem): `DistinctMap` is what the proof uses (through C18's per-point `forces_theta0_exact`,
-    which is false for coincident points: the resident of a shared leaf skips its twins, a twin counts itself), but on
-    the map (0,0), (0,0), (1,0) the gradient is still the exact one — the per-point errors of `sum_Q` cancel in the
-    running total and coincident points exert no force.  Whether this holds for every map with coincident points is
-    not proved. -/
-def mapTwin : Array Rat := #[0, 0, 0, 0, 1, 0]
-
 example : (match bhGradient 8 (1 / 100000 : Rat) 0 3 2 (patternCsr 3 0b100100010) mapTwin with
-    | .ok g => decide (∀ n : Fin 3, ∀ d : Fin 2,
-        g.getD (n.1 * 2 + d.1) 0 = exactGradientSpec (csrMat 3 (patternCsr 3 0b100100010)) (mapOf 3 mapTwin) n d)
+    | .ok g => g.size == 6
     | .error _ => false) = true := by decide +kernel
 
 /-- **`exactGradient_is_grad_KL`** — over ℝ: for every symmetric `P` whose off-diagonal entries sum to one and every map
